@@ -158,6 +158,11 @@ def openMessage (N : Noise) (n : Nat) (frame : Bytes) : Option (Bytes × Nat) :=
     (N.dec n frame).map (fun p => (p, n + 1))
   else decChunks N n (chunksOf Consts.NOISE_MAX_CIPHERTEXT frame.length frame)
 
+/-- specification vocabulary: `frame` is a concatenation of ciphertexts made with the key for the
+    successive nonces `n, n+1, …` (at least one) -/
+def KeyedFrame (N : Noise) (n : Nat) (frame : Bytes) : Prop :=
+  ∃ ps : List Bytes, ps ≠ [] ∧ frame = (encChunks N n ps).1
+
 /-- `_Framer.send_frame` -/
 def frameBytes (body : Bytes) : Option Bytes := do
   let l ← toBe4 body.length
@@ -183,6 +188,10 @@ def getExpected (buf expected : Bytes) : Except Err (Bool × Bytes) :=
     if buf.contains 10 || expected.length ≤ buf.length then .error .disconnect
     else .ok (false, buf)
   else .ok (false, buf)
+
+/-- specification vocabulary: divergence in the sense of `_get_expected` — neither byte string is
+    a prefix of the other -/
+def Diverges (buf expected : Bytes) : Prop := ¬ expected <+: buf ∧ ¬ buf <+: expected
 
 /-- `parse_frame` -/
 def parseFrame (buf : Bytes) : Option (Bytes × Bytes) :=
@@ -225,30 +234,58 @@ def parseTurn (cfg : FramerCfg) (s : FramerSt) : Except Err (Option (FramerSt ×
     | none => .ok none
   | _ => .error .noTransition
 
-/-- the loop; every continuing turn either consumes ≥ 1 byte or leaves `want_*` for good,
-    so `buf.length + 3` turns always suffice (`Props.C12.parseLoop_fuel`).  Result: framer
-    state, tokens yielded, and the exception that ended the loop (if any) -/
-def parseLoop (cfg : FramerCfg) : Nat → FramerSt → List Token → FramerSt × List Token × Option Err
-  | 0, s, acc => (s, acc.reverse, none)
-  | fuel + 1, s, acc =>
-    match parseTurn cfg s with
-    | .error e => (s, acc.reverse, some e)
-    | .ok none => (s, acc.reverse, none)
-    | .ok (some (s', none)) => parseLoop cfg fuel s' acc
-    | .ok (some (s', some t)) => parseLoop cfg fuel s' (t :: acc)
+/-- the `while True:` loop of `add_and_parse` *together with its consumer*: `add_and_parse` is a
+    generator, so the consumer's handling `h` of a yielded token runs before the framer's next
+    turn.  `U` is the consumer's state; `h` returns either the new state or the exception
+    together with the state as far as it had been updated when the exception was raised.
+    An exception (from the framer or from `h`) ends the loop with everything done so far left
+    in place — in particular the unparsed rest of the buffer.
+    Every continuing turn either consumes ≥ 1 byte or leaves `want_*` for good, so
+    `buf.length + 3` turns always suffice (`Props.C12.parseLoop_fuel`). -/
+def pump {U : Type} (cfg : FramerCfg) (h : U → Token → Except (Err × U) U) :
+    Nat → FramerSt → U → FramerSt × U × Option Err
+  | 0, fr, u => (fr, u, none)
+  | fuel + 1, fr, u =>
+    match parseTurn cfg fr with
+    | .error e => (fr, u, some e)
+    | .ok none => (fr, u, none)
+    | .ok (some (fr', none)) => pump cfg h fuel fr' u
+    | .ok (some (fr', some t)) =>
+      match h u t with
+      | .ok u' => pump cfg h fuel fr' u'
+      | .error (e, u1) => (fr', u1, some e)
 
-/-- `add_and_parse(data)` -/
+/-- `self._buffer += data` then the loop -/
+def pumpData {U : Type} (cfg : FramerCfg) (h : U → Token → Except (Err × U) U)
+    (fr : FramerSt) (u : U) (data : Bytes) : FramerSt × U × Option Err :=
+  let fr1 : FramerSt := { fr with buf := fr.buf ++ data }
+  pump cfg h (fr1.buf.length + 3) fr1 u
+
+/-- a whole inbound byte stream, in chunks; an exception ends processing (the transport is
+    closed: nothing further is delivered) -/
+def feed {U : Type} (cfg : FramerCfg) (h : U → Token → Except (Err × U) U) :
+    FramerSt → U → List Bytes → FramerSt × U × Option Err
+  | fr, u, [] => (fr, u, none)
+  | fr, u, c :: cs =>
+    match pumpData cfg h fr u c with
+    | (fr', u', none) => feed cfg h fr' u' cs
+    | (fr', u', some e) => (fr', u', some e)
+
+/-- the consumer `list(...)`: collect the yielded tokens -/
+def collect (acc : List Token) (t : Token) : Except (Err × List Token) (List Token) := .ok (acc ++ [t])
+
+/-- the framer's loop on its own: framer state, tokens yielded so far, exception (if any) -/
+def parseLoop (cfg : FramerCfg) (fuel : Nat) (s : FramerSt) (acc : List Token) :
+    FramerSt × List Token × Option Err :=
+  pump cfg collect fuel s acc
+
+/-- `add_and_parse(data)`, tokens collected -/
 def addAndParse (cfg : FramerCfg) (s : FramerSt) (data : Bytes) : FramerSt × List Token × Option Err :=
-  let s1 := { s with buf := s.buf ++ data }
-  parseLoop cfg (s1.buf.length + 3) s1 []
+  pumpData cfg collect s [] data
 
-/-- feed a list of chunks; an exception ends processing (the transport is closed) -/
-def feedChunks (cfg : FramerCfg) : FramerSt → List Bytes → List Token → FramerSt × List Token × Option Err
-  | s, [], acc => (s, acc, none)
-  | s, c :: cs, acc =>
-    match addAndParse cfg s c with
-    | (s', ts, some e) => (s', acc ++ ts, some e)
-    | (s', ts, none) => feedChunks cfg s' cs (acc ++ ts)
+/-- feed a list of chunks to the framer alone -/
+def feedChunks (cfg : FramerCfg) (s : FramerSt) (cs : List Bytes) : FramerSt × List Token × Option Err :=
+  feed cfg collect s [] cs
 
 /-! ## `_Record` + `DilatedConnectionProtocol.dataReceived` (receive side) -/
 
@@ -257,8 +294,8 @@ inductive Up where
   | handshake | record (r : Rec)
   deriving DecidableEq, Repr
 
-structure L2St where
-  fr : FramerSt
+/-- everything above the framer: `_Record`, the Noise receive nonce, the DCP machine -/
+structure UpSt where
   rcd : Record.State
   dcp : DCP.State
   rxNonce : Nat
@@ -267,7 +304,12 @@ structure L2St where
   queued : List Rec            -- `_inbound_record_queue`
   toManager : List Rec         -- everything `manager.got_record` has been called with
   candidate : Bool             -- `connector.add_candidate(self)` called
-  deriving Repr
+  deriving DecidableEq, Repr
+
+structure L2St where
+  fr : FramerSt
+  up : UpSt
+  deriving DecidableEq, Repr
 
 structure L2Cfg where
   framer : FramerCfg
@@ -277,57 +319,56 @@ structure L2Cfg where
   /-- does the peer's handshake frame verify?  (`noise.read_message`) -/
   handshakeOK : Bytes → Bool
 
-/-- `_Record.got_frame(frame)` through the generated table (collector = first) -/
-def recordGotFrame (cfg : L2Cfg) (s : L2St) (f : Bytes) : Except Err (L2St × Up) :=
+/-- `_Record.got_frame(frame)` through the generated table (collector = first).  Automat sets
+    the new state first, so an output that raises leaves `_Record` in the row's target state;
+    a record that fails to parse has already advanced the Noise nonce. -/
+def recordGotFrame (cfg : L2Cfg) (s : UpSt) (f : Bytes) : Except (Err × UpSt) (UpSt × Up) :=
   match Record.table s.rcd .got_frame with
   | some (st', .process_handshake :: rest) =>
+    let s1 := { s with rcd := st' }
     if cfg.handshakeOK f then
-      let s1 := { s with rcd := st' }
       let s2 := if rest.contains .ignore_and_send_handshake then { s1 with handshakeSent := true } else s1
       .ok (s2, .handshake)
-    else .error .disconnect
+    else .error (.disconnect, s1)
   | some (st', [.decrypt_message]) =>
+    let s1 := { s with rcd := st' }
     match openMessage cfg.noise s.rxNonce f with
-    | none => .error .disconnect
+    | none => .error (.disconnect, s1)
     | some (pt, n') =>
+      let s2 := { s1 with rxNonce := n' }
       match parseRecord cfg.validUtf8 pt with
-      | .error e => .error e
-      | .ok r => .ok ({ s with rcd := st', rxNonce := n' }, .record r)
-  | _ => .error .noTransition
+      | .error e => .error (e, s2)
+      | .ok r => .ok (s2, .record r)
+  | _ => .error (.noTransition, s)
 
-/-- the body of the `for token in add_and_unframe(data)` loop in `dataReceived` -/
-def l2Token (cfg : L2Cfg) (s : L2St) : Token → Except Err L2St
+/-- the body of the `for token in add_and_unframe(data)` loop in `dataReceived` (with the
+    `Prologue` token handled as `add_and_unframe` does).  `NoTransition` is raised before the
+    DCP machine changes anything, but after `_Record` has done its part. -/
+def l2Token (cfg : L2Cfg) (s : UpSt) : Token → Except (Err × UpSt) UpSt
   | .relayOK => .ok s
   | .prologue =>
     match Record.table s.rcd .got_prologue with
     | some (st', outs) =>
       .ok { s with rcd := st', handshakeSent := s.handshakeSent || outs.contains .send_handshake }
-    | none => .error .noTransition
+    | none => .error (.noTransition, s)
   | .frame f =>
-    (recordGotFrame cfg s f).bind fun (s1, up) =>
+    match recordGotFrame cfg s f with
+    | .error e => .error e
+    | .ok (s1, up) =>
       match up with
       | .handshake => .ok (if cfg.leader then s1 else { s1 with kcmSent := true })
       | .record .kcm =>
         match DCP.table s1.dcp .got_kcm with
         | some (d', outs) => .ok { s1 with dcp := d', candidate := s1.candidate || outs.contains .add_candidate }
-        | none => .error .noTransition
+        | none => .error (.noTransition, s1)
       | .record r =>
         match DCP.table s1.dcp .got_record with
         | some (d', [.queue_inbound_record]) => .ok { s1 with dcp := d', queued := s1.queued ++ [r] }
         | some (d', [.deliver_record]) => .ok { s1 with dcp := d', toManager := s1.toManager ++ [r] }
-        | _ => .error .noTransition
-
-/-- run the tokens in order; stop at the first exception, keeping the effects of the tokens
-    before it (the real generator is lazy, so this is what the code does) -/
-def l2Tokens (cfg : L2Cfg) : L2St → List Token → L2St × Option Err
-  | s, [] => (s, none)
-  | s, t :: ts =>
-    match l2Token cfg s t with
-    | .ok s' => l2Tokens cfg s' ts
-    | .error e => (s, some e)
+        | _ => .error (.noTransition, s1)
 
 /-- `DilatedConnectionProtocol.select(manager)` -/
-def l2Select (s : L2St) : Except Err L2St :=
+def upSelect (s : UpSt) : Except Err UpSt :=
   match DCP.table s.dcp .select with
   | some (d', outs) =>
     if outs.contains .process_inbound_queue then
@@ -335,43 +376,46 @@ def l2Select (s : L2St) : Except Err L2St :=
     else .ok { s with dcp := d' }
   | none => .error .noTransition
 
-/-- the `for token in self._record.add_and_unframe(data)` loop of `dataReceived`, with the
-    generator's laziness kept: one framer turn, then the token's handling, then the next turn.
-    An exception (from the framer or from handling a token) ends the loop with everything done
-    so far left in place — in particular the unparsed rest of the buffer. -/
-def l2Loop (cfg : L2Cfg) : Nat → L2St → L2St × Option Err
-  | 0, s => (s, none)
-  | fuel + 1, s =>
-    match parseTurn cfg.framer s.fr with
-    | .error e => (s, some e)
-    | .ok none => (s, none)
-    | .ok (some (fr', none)) => l2Loop cfg fuel { s with fr := fr' }
-    | .ok (some (fr', some t)) =>
-      match l2Token cfg { s with fr := fr' } t with
-      | .ok s2 => l2Loop cfg fuel s2
-      | .error e => ({ s with fr := fr' }, some e)
+def l2Select (s : L2St) : Except Err L2St :=
+  (upSelect s.up).map fun u => { s with up := u }
 
 /-- `dataReceived(data)`: new state and the exception that ended it, if any.  `Disconnect` is
     caught by the real method and turned into `transport.loseConnection()`; any other exception
     propagates to Twisted, which also drops the connection.  Either way the caller (`l2Feed`)
     delivers nothing further. -/
 def l2Data (cfg : L2Cfg) (s : L2St) (data : Bytes) : L2St × Option Err :=
-  let s1 := { s with fr := { s.fr with buf := s.fr.buf ++ data } }
-  l2Loop cfg (s1.fr.buf.length + 3) s1
+  match pumpData cfg.framer (l2Token cfg) s.fr s.up data with
+  | (fr', u', e) => ({ fr := fr', up := u' }, e)
 
 /-- a whole inbound byte stream, in chunks; stops at the first failure -/
-def l2Feed (cfg : L2Cfg) : L2St → List Bytes → L2St × Option Err
-  | s, [] => (s, none)
-  | s, c :: cs =>
-    match l2Data cfg s c with
-    | (s', none) => l2Feed cfg s' cs
-    | (s', some e) => (s', some e)
+def l2Feed (cfg : L2Cfg) (s : L2St) (cs : List Bytes) : L2St × Option Err :=
+  match feed cfg.framer (l2Token cfg) s.fr s.up cs with
+  | (fr', u', e) => ({ fr := fr', up := u' }, e)
 
-def l2Init (relay : Bool) (leader : Bool) : L2St :=
-  { fr := { st := if relay then .want_relay else Framer.init, buf := [] },
-    rcd := if leader then .want_prologue_leader else .want_prologue_follower,
+def upInit (leader : Bool) : UpSt :=
+  { rcd := if leader then .want_prologue_leader else .want_prologue_follower,
     dcp := DCP.init, rxNonce := 0, handshakeSent := false, kcmSent := false,
     queued := [], toManager := [], candidate := false }
+
+def l2Init (relay : Bool) (leader : Bool) : L2St :=
+  { fr := { st := if relay then .want_relay else Framer.init, buf := [] }, up := upInit leader }
+
+/-! ## the honest sender (what the peer's `_Framer`/`_Record` put on the wire) -/
+
+/-- successive `send_record` calls -/
+def sendRecords (N : Noise) : Nat → List Rec → Option (Bytes × Nat)
+  | n, [] => some ([], n)
+  | n, r :: rs => do
+    let (b, n1) ← sendRecord N n r
+    let (bs, n2) ← sendRecords N n1 rs
+    pure (b ++ bs, n2)
+
+/-- every byte an honest peer (and, before it, the relay) sends on one connection: relay reply,
+    prologue, Noise handshake frame `hs`, KCM, then the records -/
+def honestStream (cfg : L2Cfg) (relay : Bool) (hs : Bytes) (recs : List Rec) : Option Bytes := do
+  let hf ← frameBytes hs
+  let (body, _) ← sendRecords cfg.noise 0 (.kcm :: recs)
+  pure ((if relay then cfg.framer.relayExpected else []) ++ cfg.framer.inboundPrologue ++ hf ++ body)
 
 /-! ## driver (line protocol)
 
@@ -381,9 +425,12 @@ unbe4 <hex>                   -> n | ValueError
 enc <rec…>                    -> hex | ValueError            (encode_record)
 parse <hex>                   -> rec… | <Error>              (parse_record)
 seal <hex>                    -> hex                          (frame body under the toy noise, nonce from state)
+send <rec…>                   -> hex | ValueError            (send_record: the bytes written to the transport)
 new <relay:0/1> <leader:0/1> <hex inbound prologue>          -> ok
 data <hex>                    -> state summary | Disconnect… (dataReceived on the model connection)
 select                        -> state summary
+fnew <relay:0/1> <hex inbound prologue>                      -> ok     (a `_Framer` on its own)
+fdata <hex>                   -> tokens, exception, framer state       (list(add_and_parse(data)))
 ```
 The toy Noise used by the driver *and* by the harness' fake: `enc n m = m ++ tag(n, m)` with
 `tag(n, m)` = 16 bytes `(7n + Σm + |m|) % 256`, `dec` checks and strips the tag.
@@ -418,21 +465,35 @@ def readRec? : List String → Option Rec
   | ["ack", r] => do pure (.ack (← r.toNat?))
   | _ => none
 
+def showToken : Token → String
+  | .relayOK => "relayok"
+  | .prologue => "prologue"
+  | .frame f => "frame:" ++ toHex f
+
 structure DrvSt where
   cfg : L2Cfg
   l2 : L2St
   dead : Bool
   txNonce : Nat
+  fcfg : FramerCfg
+  fs : FramerSt
+  fdead : Bool
+
+/-- the relay's reply `_Framer.store_relay_handshake` expects: `b"ok\n"` -/
+def relayOkBytes : Bytes := [111, 107, 10]
 
 def drvCfg (leader : Bool) (pro : Bytes) : L2Cfg :=
-  { framer := { relayExpected := [111, 107, 10], inboundPrologue := pro },
+  { framer := { relayExpected := relayOkBytes, inboundPrologue := pro },
     leader := leader, noise := toyNoise, validUtf8 := realValidUtf8,
     handshakeOK := fun f => f == [104, 115] }   -- the fake noise handshake is b"hs"
 
 def showL2 (s : L2St) : String :=
-  s!"{Framer.State.name s.fr.st} {Record.State.name s.rcd} {DCP.State.name s.dcp} buf={s.fr.buf.length} hs={s.handshakeSent} kcm={s.kcmSent} cand={s.candidate} queued={s.queued.length} mgr=[{"; ".intercalate (s.toManager.map showRec)}]"
+  s!"{Framer.State.name s.fr.st} {Record.State.name s.up.rcd} {DCP.State.name s.up.dcp} buf={s.fr.buf.length} hs={s.up.handshakeSent} kcm={s.up.kcmSent} cand={s.up.candidate} queued={s.up.queued.length} mgr=[{"; ".intercalate (s.up.toManager.map showRec)}]"
 
-def drvInit : DrvSt := { cfg := drvCfg true [], l2 := l2Init false true, dead := false, txNonce := 0 }
+def drvInit : DrvSt :=
+  { cfg := drvCfg true [], l2 := l2Init false true, dead := false, txNonce := 0,
+    fcfg := { relayExpected := relayOkBytes, inboundPrologue := [] },
+    fs := { st := Framer.init, buf := [] }, fdead := false }
 
 def step (s : DrvSt) (line : String) : DrvSt × String :=
   match tokens line with
@@ -459,11 +520,18 @@ def step (s : DrvSt) (line : String) : DrvSt × String :=
       let (body, n') := sealMessage toyNoise s.txNonce b
       ({ s with txNonce := n' }, toHex body)
     | none => (s, "bad-op")
+  | "send" :: rest =>
+    match readRec? rest with
+    | some r =>
+      match sendRecord toyNoise s.txNonce r with
+      | some (b, n') => ({ s with txNonce := n' }, toHex b)
+      | none => (s, "ValueError")
+    | none => (s, "bad-op")
   | ["new", relay, leader, pro] =>
     match fromHex? pro with
     | some p =>
       let ld := leader == "1"
-      ({ cfg := drvCfg ld p, l2 := l2Init (relay == "1") ld, dead := false, txNonce := 0 }, "ok")
+      ({ s with cfg := drvCfg ld p, l2 := l2Init (relay == "1") ld, dead := false, txNonce := 0 }, "ok")
     | none => (s, "bad-op")
   | ["data", h] =>
     match fromHex? h with
@@ -477,6 +545,24 @@ def step (s : DrvSt) (line : String) : DrvSt × String :=
     match l2Select s.l2 with
     | .ok l2' => ({ s with l2 := l2' }, showL2 l2')
     | .error e => (s, e.name)
+  | ["fnew", relay, pro] =>
+    match fromHex? pro with
+    | some p =>
+      ({ s with fcfg := { relayExpected := relayOkBytes, inboundPrologue := p },
+                fs := { st := if relay == "1" then .want_relay else Framer.init, buf := [] },
+                fdead := false }, "ok")
+    | none => (s, "bad-op")
+  | ["fdata", h] =>
+    match fromHex? h with
+    | some b =>
+      if s.fdead then (s, "dead") else
+      match addAndParse s.fcfg s.fs b with
+      | (fs', ts, e) =>
+        let toks := if ts.isEmpty then "-" else ",".intercalate (ts.map showToken)
+        let err := match e with | none => "ok" | some e => e.name
+        ({ s with fs := fs', fdead := e.isSome },
+         s!"{toks} {err} {Framer.State.name fs'.st} buf={fs'.buf.length}")
+    | none => (s, "bad-op")
   | _ => (s, "bad-op")
 
 def driver (lines : List String) : List String := runLines step drvInit lines
